@@ -24,7 +24,7 @@ import (
 )
 
 type Op struct {
-	Op    string   `json:"op"` // start stop settle | triggers lengths projectors wc label comment coupleerr couplefb gadd gdel stopc storeraw mix
+	Op    string   `json:"op"` // start stop settle dying | triggers lengths projectors wc label comment coupleerr couplefb gadd gdel stopc storeraw mix
 	Idx   []int    `json:"idx,omitempty"`
 	Emt   bool     `json:"emt,omitempty"`
 	Ns    int      `json:"ns,omitempty"`
@@ -305,6 +305,7 @@ func runOnce(c Case, watchdog time.Duration) (outcome, error) {
 		return a != nil && a.GetState() == dastard.Active
 	}
 	next := 0
+	hold := false // the core loop is parked after its loop ended: keep that window open while the next request waits
 	const maxSteps = 800
 	for !out.Hung {
 		if s.Pending() == 0 {
@@ -322,6 +323,18 @@ func runOnce(c Case, watchdog time.Duration) (outcome, error) {
 				}
 				continue
 			}
+			if o.Op == "dying" {
+				// let the core loop run into the source's own end and stop at core:before-return: its loop is over,
+				// but until the deferred teardown has run the source still counts as running
+				for i := 0; i < 60 && !s.ParkedAt("core:before-return") && really(); i++ {
+					if !s.Step(func(n string) bool { return strings.HasPrefix(n, "core:") && n != "core:before-return" }) &&
+						!s.WaitActivity(20*time.Millisecond) {
+						break
+					}
+				}
+				hold = s.ParkedAt("core:before-return")
+				continue
+			}
 			call := "req"
 			if o.Op == "start" || o.Op == "stop" {
 				call = o.Op
@@ -335,6 +348,14 @@ func runOnce(c Case, watchdog time.Duration) (outcome, error) {
 		if s.Steps >= maxSteps {
 			out.Hung = true
 			break
+		}
+		if hold {
+			if s.Step(func(n string) bool { return strings.HasPrefix(n, "rpc:") }) {
+				continue
+			}
+			// the client is inside its send (or has been answered already): the teardown takes its time
+			time.Sleep(60 * time.Millisecond)
+			hold = false
 		}
 		if !s.Step(nil) && !s.WaitActivity(watchdog) {
 			out.Hung = true
@@ -383,7 +404,7 @@ func runOnce(c Case, watchdog time.Duration) (outcome, error) {
 func render(c Case, out outcome, crashed bool) string {
 	var ops []string
 	for _, o := range c.Ops {
-		if o.Op != "settle" {
+		if o.Op != "settle" && o.Op != "dying" {
 			ops = append(ops, coqOp(o))
 		}
 	}
@@ -420,6 +441,11 @@ func tagsOf(c Case) []string {
 		case "settle":
 			if started && c.Source == "erroring" {
 				t["after-self-termination"] = true
+			}
+			continue
+		case "dying":
+			if started && c.Source == "erroring" {
+				t["during-self-termination"] = true
 			}
 			continue
 		}
